@@ -69,6 +69,11 @@ pub fn run_case(ctx: &mut Ctx, fam: &str, _k: u64, r: &mut Rng) {
     cfg.max_ops = 100;
     cfg.conv = false;
     cfg.untracked_eighths = 2;
+    if r.chance(1, 4) {
+        // larger arrays (up to 64 elements): size-dependent shortcuts only engage above some threshold
+        cfg.max_rank = 2;
+        cfg.max_dim = 8;
+    }
     let mut h = match Hist::new(r, &cfg, false) {
         Ok(h) => h,
         Err(_) => return,
